@@ -535,9 +535,9 @@ package zygo
 
 //@ func (*Stack).PopScope
 //@ requires typeinv[Stack] wfs(stack)
-//@ C04 modifies stack.tos, stack.elements, elems(stack.elements)
-//@ C04 ensures ok: r0 == nil ==> wfs(stack) && stack.tos == old(stack.tos) - 1
-//@ C04 ensures underflow: r0 != nil ==> stack.tos == old(stack.tos)
+//@ C02,C04 modifies stack.tos, stack.elements, elems(stack.elements)
+//@ C02,C04 ensures ok: r0 == nil ==> wfs(stack) && stack.tos == old(stack.tos) - 1
+//@ C02,C04 ensures underflow: r0 != nil ==> stack.tos == old(stack.tos)
 
 //@ func (*Zlisp).NewNamedScope
 //@ C04 pure
@@ -1188,3 +1188,23 @@ package zygo
 //  40 '('  91 '['  123 '{'  44 ','  59 ';'  43 '+'  45 '-'  42 '*'  47 '/'  60 '<'  62 '>'  61 '='  32 9 10 blanks)
 //@ C06 ensures after-an-operand-it-is-the-operator: r == 41 || r == 93 || r == 125 || r == 34 || r == 39 || r == 95 || (48 <= r && r <= 57) || (97 <= r && r <= 122) || (65 <= r && r <= 90) ==> !r0
 //@ C06 ensures after-an-opener-or-operator-it-is-a-sign: r == 0 || r == 32 || r == 9 || r == 10 || r == 40 || r == 91 || r == 123 || r == 44 || r == 59 || r == 43 || r == 45 || r == 42 || r == 47 || r == 60 || r == 62 || r == 61 ==> r0
+
+// break / continue unwind to the loop's own scope: the scopes opened since the loop's scope
+// are popped (the loop's cleanup pops the loop's scope itself), then control goes to the
+// loop's break / continue target
+//@ func (*Generator).GenerateBreak
+//@ C02 assert unwinds-to-loop-scope @before call AddInstruction[0]: arg0 == gen && typeis(arg1, *BreakInstr) && arg1.(*BreakInstr).loop == loop && arg1.(*BreakInstr).pos == 0
+//@ |  && arg1.(*BreakInstr).scopesToPop >= 0 && (0 <= loop.scopeDepth && loop.scopeDepth < gen.scopes && gen.scopes <= 1000000 ==> gen.scopes - arg1.(*BreakInstr).scopesToPop == loop.scopeDepth + 1)
+//@ func (*Generator).GenerateContinue
+//@ C02 assert unwinds-to-loop-scope @before call AddInstruction[0]: arg0 == gen && typeis(arg1, *ContinueInstr) && arg1.(*ContinueInstr).loop == loop && arg1.(*ContinueInstr).pos == 0
+//@ |  && arg1.(*ContinueInstr).scopesToPop >= 0 && (0 <= loop.scopeDepth && loop.scopeDepth < gen.scopes && gen.scopes <= 1000000 ==> gen.scopes - arg1.(*ContinueInstr).scopesToPop == loop.scopeDepth + 1)
+//@ func (*BreakInstr).Execute
+//@ requires typeinv[Zlisp] distinctStacks(env)
+//@ requires typeinv[Stack] wfs(env.linearstack)
+//@ C02 ensures pops-and-jumps: r0 == nil && old(s.scopesToPop) >= 0 ==> env.linearstack.tos == old(env.linearstack.tos) - old(s.scopesToPop) && env.pc == s.pos + s.loop.breakOffset
+//@ C02 loop 0 invariant 0 <= i && (i <= s.scopesToPop || s.scopesToPop < 0) && s.scopesToPop == old(s.scopesToPop) && wfs(env.linearstack) && env.linearstack == old(env.linearstack) && env.linearstack.tos == old(env.linearstack.tos) - i
+//@ func (*ContinueInstr).Execute
+//@ requires typeinv[Zlisp] distinctStacks(env)
+//@ requires typeinv[Stack] wfs(env.linearstack)
+//@ C02 ensures pops-and-jumps: r0 == nil && old(s.scopesToPop) >= 0 ==> env.linearstack.tos == old(env.linearstack.tos) - old(s.scopesToPop) && env.pc == s.pos + s.loop.continueOffset
+//@ C02 loop 0 invariant 0 <= i && (i <= s.scopesToPop || s.scopesToPop < 0) && s.scopesToPop == old(s.scopesToPop) && wfs(env.linearstack) && env.linearstack == old(env.linearstack) && env.linearstack.tos == old(env.linearstack.tos) - i
